@@ -277,6 +277,7 @@ def check_mpl_2d(case, ctx: Ctx):
             require(len(rects) == len(cells), "map_cell_count", f"{len(rects)} patches for {len(cells)} cells")
             seen = []
             for (i, j), r in zip(cells, rects):
+                require(type(r).__name__ == "Rectangle", "map_cell_not_a_rectangle", f"cell ({i},{j}) drawn as {type(r).__name__}")
                 require(close(r.get_x(), bx[i][0]) and close(r.get_y(), by[j][0]) and close(r.get_width(), bx[i][1] - bx[i][0]) and close(r.get_height(), by[j][1] - by[j][0]), "map_cell_geometry",
                         f"cell ({i},{j}): rect ({r.get_x()!r},{r.get_y()!r},{r.get_width()!r},{r.get_height()!r}) expected ({bx[i][0]!r},{by[j][0]!r},{bx[i][1] - bx[i][0]!r},{by[j][1] - by[j][0]!r})")
                 seen.append((data[i, j], luminance(r.get_facecolor())))
